@@ -217,6 +217,13 @@ def ppoRatio (ex : Int → Int) (llNew : List LP) (llOld : LP) : LP :=
   | some a, some b => some (ex (if Params.ppoRatioNewMinusOld then a - b else b - a))
   | _, _ => none
 
+/-- The `mask_logits` flag `AttentionModelPolicy` (and its subclasses HAM / SymNCO / POMO's policy) hands to the decoding
+machinery, as a function of the constructor arguments: the argument itself (`Params.amCtorDecodingArgsPassedThrough`,
+extracted: no re-assignment in `__init__`, `mask_logits=mask_logits` in the forwarding call), otherwise "combined with
+something else" (modelled as a conjunction with `other`, e.g. `mask_inner`). -/
+def policyMaskLogits (ctorArg other : Bool) : Bool :=
+  if Params.amCtorDecodingArgsPassedThrough then ctorArg else ctorArg && other
+
 /-! ### stepwise PPO policies (`L2DPolicy4PPO.act` / `.evaluate`, the entry points of `StepwisePPO`)
 
 One decoding step per call.  `proc opts s` is the processed step distribution of state `s` as a function of the
